@@ -187,6 +187,13 @@ func crossKindMatrix() {
 		}
 	}
 	runCase(tc("refresh", "none", "E", hs(""), "E"))
+	// cross-session pairs under the configured lifetimes
+	ttlA, ttlR := api.JWT_TOKEN_EXPIRE_TS, api.REFRESH_JWT_TOKEN_EXPIRE_TS
+	for _, d := range []int{-61, -30, -3, -2, 0, 2, 3, 30, 59, 60, 61} {
+		acc := recB("HS256", "a", claimsOf('a', "alice", "web", fmt.Sprintf("nr%d", ttlA), nil))
+		ref := recB("HS256", "r", claimsOf('r', "alice", "web", fmt.Sprintf("nr%d", ttlR+d), nil))
+		runCase(tc("refresh", "bearer", acc, hs("web"), ref))
+	}
 }
 
 // runChild runs one ini spec in a child process and merges what it recorded into this run.
